@@ -1,22 +1,27 @@
 """C05 -- fetch, clone and push transfer a complete, byte-identical object closure.
 
-Specs: specs/TransferOps.tla (objects, closures, MissingObjectFinder, graph walker, ack
+Specs: specs/TransferOps.tla (objects, closures, shallow cuts, MissingObjectFinder, graph walker, ack
 implementations), specs/Transfer.tla (one transfer as a state machine + the properties as
-invariants), specs/TransferCases.tla (case enumeration), specs/TransferTrace.tla (judge).
+invariants), specs/TransferCases.tla (case enumeration), specs/TransferTrace.tla (judge),
+specs/TransferShallow.tla (where the shallow-info part of the conversation sits and how the client
+reads it).
 
   1. TLC model-checks Transfer over several bounded case spaces (negotiation-focused,
      object-graph-focused, work-set order) + negative controls that must fail.
   2. spec -> code: TLC enumerates the same case spaces (TransferCases, deterministic sample);
      every case is materialised as two real repositories (harness/c05_lib.py writes the objects
      with zlib/hashlib, no dulwich) and the transfer is executed over LocalGitClient, a dulwich
-     TCP server on loopback, C git upload-pack/receive-pack under the dulwich client and the C git
-     client against the dulwich server (harness/c05_exec.py); the pack on the wire is captured
+     TCP server and dulwich's WSGI smart-HTTP application on loopback, C git upload-pack /
+     receive-pack under the dulwich client, the C git client (git://, http://) against the dulwich
+     servers, and the porcelain commands (harness/c05_exec.py); the pack on the wire is captured
      and parsed by an independent parser, the receiving directory is projected by a fresh Repo
-     (and git cat-file / fsck).
+     (and git cat-file / fsck).  Every behaviour of TransferShallow is replayed on the real
+     _handle_upload_pack_head / _handle_upload_pack_tail with a scripted can_read().
   3. code -> spec: every executed transfer -- those of 2 and larger seeded random histories,
-     long negotiations, packed/deltified senders, clone and push -- is written to ndjson and
-     judged by TLC with TransferTrace: property clauses on the real sets (VIOLATION), conformance
-     of the pack content and of the have/ACK dialogue with the model (SPEC-DRIFT).
+     long negotiations, packed/deltified senders, clone, push, depth-limited sequences -- is
+     written to ndjson and judged by TLC with TransferTrace: property clauses on the real sets
+     (VIOLATION), conformance of the pack content and of the have/ACK dialogue with the model
+     (SPEC-DRIFT).
 """
 from __future__ import annotations
 
@@ -251,7 +256,7 @@ def jobs_for_case(ctx, c, space, k, gitfrac, tid0):
     named = all(tuple(w) in {("c", i) for i in c["sh"]} | {("g", m + 1) for m in range(len(c["U"]["tg"]))} for w in c["wants"])
     if pg == 0:
         job("fetch", "porcelain", via=via, slayout=layout, rlayout=rlayout)
-    elif pg == 1 and named:
+    elif pg == 1 and named and all(w[0] == "c" for w in c["wants"]):
         job("fetch", "porcelain-pull", via=via, slayout=layout, rlayout=rlayout, rhead_unborn=1,
             default_refspec=int((h >> 29) % 3 == 0))
     elif pg == 2 and named:
@@ -364,6 +369,8 @@ def extra_jobs(ctx):
             j.update(op=op, transport=tr, caps=caps, space="random", gitcheck=int(rng.random() < 0.5),
                      slayout=rng.choice(["loose", "gitpack", "gitpack", "bitmap"]),
                      rlayout=rng.choice(["loose", "loose", "gitpack"]))
+            if tr == "porcelain-pull" and not all(w[0] == "c" for w in c["wants"]):
+                continue        # pulling a tag makes a branch point at the tag object: not this property's business
             if tr.startswith("porcelain"):
                 j.update(via=rng.choice(["path", "tcp", "http"]), rhead_unborn=int(tr == "porcelain-pull"),
                          default_refspec=int(rng.random() < 0.3))
@@ -397,6 +404,11 @@ def extra_jobs(ctx):
                 j.update(op="fetch", transport=tr, caps={"mode": mode} if tr != "gitclient" else {}, space="shallow",
                          gitcheck=1, steps=steps, depth=depth)
                 out.append(j)
+        # the same repository, shallow after the first step, then fetches without a depth over protocol v2
+        j = dict(base)
+        j.update(op="fetch", transport="gitserver", caps={"mode": "detailed", "v2": True}, space="shallow", gitcheck=1, depth=depth,
+                 rh=[], steps=[{"wants": [["c", 2]], "depth": depth}, {"wants": [["c", 3]], "depth": 0}])
+        out.append(j)
     for (npriv, ncom, both) in ctx.pick([(270, 3, True), (40, 2, False)], [(270, 3, True), (300, 2, False), (600, 4, True), (40, 2, False)]):
         c = long_case(npriv, ncom, both)
         for tr in ("tcp", "local", "gitserver", "githttp", "http", "gitclient"):
@@ -466,6 +478,9 @@ def steps_key(j, r):
 
 PULL_IMPORT_SIG = ("dulwich/porcelain/__init__.py:pull|ReceiverComplete.closed|remote branches and tags that were not fetched "
                    "are imported as refs/remotes/<remote>/* and refs/tags/* and point at absent objects")
+V2_SHALLOW_SIG = ("dulwich/client.py:_handle_upload_pack_tail|ReceiverComplete.wants|protocol v2 fetch without depth by a shallow "
+                  "repository: the shallow-info section of the response is taken for the packfile section, the pack is not "
+                  "read, success is reported")
 SHALLOW_LOOP_SIG = ("dulwich/client.py:_handle_upload_pack_head|ReceiverComplete|depth-limited fetch over a stateful transport "
                     "(git://, subprocess) by a client that has heads to offer: shallow-info lines are read and dropped by "
                     "the have loop, .git/shallow misses boundary commits")
@@ -497,6 +512,8 @@ def report(ctx, jobs, recs, verdicts):
             bad_jobs.add(j["tid"])
             if clause.startswith("ReceiverComplete") and r["info"].get("shallow_in_have_loop"):
                 g = ("dulwich/client.py:_handle_upload_pack_head", "shallow-info")
+            elif clause.startswith("ReceiverComplete") and r["info"].get("v2_unasked_shallow_info") and r["shal0"]:
+                g = ("dulwich/client.py:_handle_upload_pack_tail", "v2-shallow-info")
             elif clause == "ReceiverComplete.closed" and j["transport"] == "porcelain-pull":
                 g = ("dulwich/porcelain/__init__.py:pull", "pull-import")
             else:
@@ -522,6 +539,14 @@ def report(ctx, jobs, recs, verdicts):
                     f"{j['transport']} of {case_key(j)}{steps_key(j, r)}: .git/shallow = {r['shal1']}, missing {detail}; "
                     f"{len(lst)} executions in this run")
             if ctx.violation(SHALLOW_LOOP_SIG, what, {"job": j, "record": r, "clause": "ReceiverComplete", "detail": detail}):
+                cnt["violations"] += 1
+            continue
+        if clause == "v2-shallow-info":
+            j, r, detail = lst[0]
+            what = (f"a shallow repository fetching (no depth) over protocol v2 drops the pack: e.g. {j['op']} over {j['transport']} "
+                    f"({caps_key(j)}) of {case_key(j)}{steps_key(j, r)}: success reported, pack not read, missing {detail}; "
+                    f"{len(lst)} executions in this run")
+            if ctx.violation(V2_SHALLOW_SIG, what, {"job": j, "record": r, "clause": "ReceiverComplete.wants", "detail": detail}):
                 cnt["violations"] += 1
             continue
         if clause == "pull-import":
@@ -559,6 +584,114 @@ def report(ctx, jobs, recs, verdicts):
     return cnt
 
 
+# --------------------------------------------------------------------------- TransferShallow: every behaviour on the real functions
+def shallow_paths(graph):
+    """all maximal paths of the (acyclic) state graph -> list of (scenario script, final state)"""
+    out = []
+
+    def walk(nid, acks, reads):
+        st = graph.nodes[nid]
+        succ = graph.edges.get(nid, [])
+        if not succ:
+            sc = to_py(st["sc"])
+            out.append(({"v": sc["v"], "nb": sc["nb"], "nh": sc["nh"], "asked": bool(sc["asked"]), "cshal": bool(sc["cshal"]),
+                         "acks": list(acks), "reads": list(reads)},
+                        {"outcome": st["outcome"], "cshallow": sorted(st["cshallow"]), "packRead": int(bool(st["packRead"]))}))
+            return
+        for label, dst in succ:
+            d = graph.nodes[dst]
+            name = label.split("(")[0].strip()
+            if name == "Have":
+                walk(dst, acks + [len(d["s2c"]) > len(st["s2c"])], reads)
+            elif name == "CRead":
+                walk(dst, acks, reads + [True])
+            elif name == "CNoRead":
+                walk(dst, acks, reads + [False])
+            else:
+                walk(dst, acks, reads)
+    for i in graph.init:
+        walk(i, [], [])
+    return out
+
+
+def start_shallow(d, tex):
+    futs = {}
+    for variant, flag in (("code", "FALSE"), ("fixed", "TRUE")):
+        cfg = os.path.join(d, f"shallow_{variant}.cfg")
+        tlc.write_cfg(cfg, spec="Spec", constants={"Variants": '{"v0", "v2"}', "MaxNB": 2, "MaxNH": 2,
+                                                   "ReadFirst": flag, "HandleUnasked": flag},
+                      invariants=["ShallowRecorded", "PackDelivered"])
+        dot = os.path.join(d, f"shallow_{variant}.dot")
+        futs[variant] = (dot, tex.submit(JTOKENS.run, "TransferShallow.tla", cfg, workers=1, timeout=600, cont=True, dump_dot=dot))
+    return futs
+
+
+def check_shallow(ctx, futs, pex):
+    """TLC explores TransferShallow for the client as it is in the snapshot and for the repaired
+    client; every behaviour of both is executed on the real _handle_upload_pack_head/_tail.  The
+    tree must behave exactly like one of the two models; the property clauses are evaluated on
+    what the real functions returned."""
+    res, paths = {}, {}
+    for variant in ("code", "fixed"):
+        dot, fu = futs[variant]
+        r = fu.result()
+        ctx.add_tlc(f"TransferShallow[{variant}]", r, require_ok=False)
+        if not r.completed:
+            raise MachineryError(f"TransferShallow[{variant}] did not complete\n{r.output[-2000:]}")
+        res[variant] = r
+        paths[variant] = shallow_paths(tlc.load_dot(dot))
+    if set(res["code"].violated) != {"ShallowRecorded", "PackDelivered"}:
+        raise MachineryError(f"TransferShallow: the model of the unrepaired client must violate both invariants, TLC says {res['code'].violated}")
+    if res["fixed"].violated:
+        raise MachineryError(f"TransferShallow: the model of the repaired client violates {res['fixed'].violated}")
+    mismatch, real_of = {}, {}
+    for variant in ("code", "fixed"):
+        specs = [p[0] for p in paths[variant]]
+        reals = []
+        for chunk in pex.map(X.run_shallow_batch, [specs[i:i + 100] for i in range(0, len(specs), 100)]):
+            reals.extend(chunk)
+        real_of[variant] = reals
+        mismatch[variant] = [(sp, model, real) for (sp, model), real in zip(paths[variant], reals) if model != real]
+        ctx.count(len(specs))
+        ctx.validated(len(specs))
+    tree = "code" if not mismatch["code"] else "fixed" if not mismatch["fixed"] else None
+    ctx.cov["shallow_client"] = {"behaviours": {k: len(v) for k, v in paths.items()}, "tree_behaves_like": tree,
+                                 "mismatches": {k: len(v) for k, v in mismatch.items()}}
+    if tree is None:
+        best = min(("code", "fixed"), key=lambda k: len(mismatch[k]))
+        sp, model, real = mismatch[best][0]
+        for _ in range(len(mismatch[best]) - 1):
+            ctx.cov["drift"] += 1
+        ctx.drift_event(f"dulwich/client.py:_handle_upload_pack_head/_tail behaves like neither model of TransferShallow "
+                        f"({len(mismatch['code'])} / {len(mismatch['fixed'])} behaviours differ); e.g. ({best}) {sp}: model {model}, real {real}")
+    # the property clauses on what the real functions did, over the behaviours of the model the tree
+    # follows (a script taken from the other model can ask the real code to read what is not there yet)
+    lost, nopack = [], []
+    for variant in ((tree,) if tree else ("code", "fixed")):
+        for (sp, _model), real in zip(paths[variant], real_of[variant]):
+            if real["outcome"] != "ok":
+                continue
+            ctx.nontrivial(("shallow-script", json.dumps(sp, sort_keys=True)))
+            if not real["packRead"]:
+                nopack.append((sp, real))
+            elif real["cshallow"] != list(range(1, sp["nb"] + 1)):
+                lost.append((sp, real))
+    key = lambda x: (x[0]["nb"], x[0]["nh"], len(x[0]["reads"]))
+    if lost:
+        lost.sort(key=key)
+        sp, real = lost[0]
+        ctx.violation(SHALLOW_LOOP_SIG, f"_handle_upload_pack_head loses shallow boundary commits the server announced: scripted "
+                      f"conversation {sp} -> recorded {real['cshallow']} of {sp['nb']}; {len(lost)} scripted conversations",
+                      {"shallow_script": sp, "real": real})
+    if nopack:
+        nopack.sort(key=key)
+        sp, real = nopack[0]
+        ctx.violation(V2_SHALLOW_SIG, f"_handle_upload_pack_tail reports success without reading the pack: scripted conversation {sp}; "
+                      f"{len(nopack)} scripted conversations", {"shallow_script": sp, "real": real})
+    ctx.log(f"TransferShallow: {len(paths['code'])} + {len(paths['fixed'])} behaviours replayed on _handle_upload_pack_head/_tail; "
+            f"the tree behaves like the {tree or '??'} model; {len(lost)} lose boundary commits, {len(nopack)} lose the pack")
+
+
 # --------------------------------------------------------------------------- main
 def run(ctx):
     d = ctx.tmpdir("c05")
@@ -570,6 +703,7 @@ def run(ctx):
                           {"neg3": 2, "obj2": 3, "pop2": 0, "neg4": 11, "obj2w": 17, "obj3": 211, "tag2": 53, "pop3": 0})
     tex = cf.ThreadPoolExecutor(max_workers=8)
     cases_f, mc_f, nc_f = {}, {}, {}
+    shallow_f = start_shallow(d, tex)
     for sp in spaces:
         if sample_mod.get(sp):
             cfg = write_cfg(d, "cases_" + sp, SPACES[sp], spec="CasesSpec",
@@ -617,6 +751,7 @@ def run(ctx):
     recs = []
     t0 = time.time()
     with cf.ProcessPoolExecutor(max_workers=nproc, mp_context=mp.get_context("spawn")) as pex:
+        check_shallow(ctx, shallow_f, pex)
         for out in pex.map(X.run_batch, batches):
             recs.extend(out)
     mach = [r for r in recs if "machinery" in r]
@@ -671,8 +806,15 @@ def run(ctx):
         "the pack content, their dialogue only when it matches",
         "C git 2.39.5 is the only third implementation; a disagreement between the specification and git on git's own "
         "behaviour is a machinery failure, never a VIOLATION",
-        "receiver stores are complete (closed under reachability) before the transfer, as the statement assumes; "
-        "shallow/depth-limited fetches, filters, bundle URIs, smart HTTP and protocol v2 on the dulwich server are not exercised",
+        "receiver stores are complete (closed under reachability, modulo .git/shallow) before the transfer, as the statement "
+        "assumes; sender stores are closed",
+        "depth-limited fetches are judged by ClosureCut / DepthCut of TransferOps on real transfers (one or two steps: depth, "
+        "then deepen / unshallow / ordinary fetch) and by TransferShallow for the client's handling of the shallow-info part; "
+        "the object-level negotiation model (MissingObjectFinder conformance, dialogue) is not applied to shallow transfers",
+        "not exercised: filters / partial clone, bundle URIs, dumb HTTP, ssh, SHA-256 repositories, pushes from shallow "
+        "repositories, protocol v2 on the dulwich server (it has none; v2 is exercised with the dulwich client against C git)",
+        "failed transfers (exceptions, refusals) are outside the statement ('after a successful ...'); they are counted in "
+        "coverage.failed_transfers and only the receiver's NoLoss / closedness is judged for them",
     ]
     return ctx.finish(exhaustive=False)
 
@@ -680,6 +822,14 @@ def run(ctx):
 def replay(ctx, path):
     with open(path) as f:
         obj = json.load(f)
+    if "shallow_script" in obj:
+        sp = obj["shallow_script"]
+        real = X.run_shallow_script(sp)
+        print(f"replaying a scripted upload-pack conversation on _handle_upload_pack_head/_tail:\n  {sp}\n  -> {real}")
+        bad = real["outcome"] == "ok" and (not real["packRead"] or real["cshallow"] != list(range(1, sp["nb"] + 1)))
+        if bad:
+            print(f"VIOLATION property=C05 replay={path}")
+        return int(bad)
     j = obj["job"]
     j["tid"] = 1
     j["keep"] = False
